@@ -242,7 +242,11 @@ EXTRA = {
            "information, AS 0 and 2^32-1).",
     "C07": " The reader automaton covers all 27 fixed-size readers (read / try_read / read_payload of nine PDU structs) and open, silent streams "
            "(a reader may wait only for bytes its header announced); PDUs around and beyond 64 KiB, queries read by the real server connection "
-           "under every fragmentation, and one driven client session per version pairing are included.",
+           "under every fragmentation, and one driven client session per version pairing are included. RtrClientStream.tla is the session-level "
+           "reader: a cache that speaks one version answers up to 2/3 update() calls with conforming replies (data, Cache Reset, version downgrade) "
+           "or deviates in one place (version, type or length field of one PDU or of a Serial Notify, or the stream ends between or inside PDUs); "
+           "TLC checks OkMeansClean, ErrMeansDirty, StopsAtBad, VersionStable and termination, and every conversation is run through the real Client "
+           "on a scripted socket that hands out seven octets at a time.",
     "C09": " Hostile streams include endless runs of small comments, processing instructions and CDATA sections (no element starts, so no fresh "
            "budget is due); every hostile stream ends at twice the limit in force.",
     "C10": " The content is a real RFC 6492 / 8181 message and every case is also decided by ProvisioningCms / PublicationCms (decode, validate_at, "
@@ -253,7 +257,9 @@ EXTRA = {
     "C14": " Every 25th content is also wrapped in a real signed manifest (Manifest::decode strict / relaxed must agree with ManifestContent::take_from); "
            "size_hint of the list iterators must bracket what they yield; manifests written with unreal times must not decode.",
     "C15": " Assertion lists with several entries of every kind and repeats are included, expectations are written from raw data (not through the "
-           "library's constructors), and IPv4-mapped IPv6 prefixes are a fourth rendering.",
+           "library's constructors), and IPv4-mapped IPv6 prefixes are a fourth rendering. SlurmAssert.tla grows the assertion lists one assertion "
+           "at a time out of 222 (prefix / maximum length classes, AS 0 and 2^32-1, key information of 0..4 octets, provider lists empty, unsorted, "
+           "repeating); every list is replayed (iter_payload item by item, JSON there and back).",
     "C16": " Every PDU that carries a serial number must put it on the wire big-endian and hand it back through each accessor.",
     "C17": " Serial numbers are replayed at every length from 1 to 20 octets through every conversion (array, String, integer constructors); "
            "Validity::verify is asked against the wall clock.",
